@@ -49,7 +49,8 @@ RULE = (
     "spurious early select wake-ups, injected EAGAIN/EINTR; send: link capacity 4..64 bytes, peer read credit granted in steps at "
     "drawn times, short writes; thr-*: a holder thread inside recv_packet(None) / back-pressured send_packet(None) of the same "
     "client keeps the receive / send lock until L in {1,4,10,30}d, the caller starts at {1,2,5,12,40}d, scheduler switch_den in "
-    "{2,3,6}; sync-tls: TLS 1.2/1.3, library as client or server, handshake flights dripped by a (sizes, delays) script with "
+    "{2,3,6}; thr-x-*: cross-lock case, the holder keeps the OTHER lock (send lock while the caller receives, receive lock while "
+    "the caller sends; TCP and UDP) until L in {10,30,60,200}d and the caller's operation is completable regardless of L; sync-tls: TLS 1.2/1.3, library as client or server, handshake flights dripped by a (sizes, delays) script with "
     "handshake_timeout in {60, 8d, 40d}, then 1-3 records fed byte-wise / in bursts / after a silence / last byte never; "
     "non-trivial = a fault kind fired and >=1 operation completed with a value"
 )
